@@ -581,7 +581,7 @@ Fixpoint rq_bound_ok (v : view) (qs : list Q) (obs : list Z) : bool :=
   match qs, obs with
   | q :: qr, _ :: rb :: obr =>
       match Q_of_bits rb with
-      | Some r => Qle_bool (Qabs (r - q)) (resolution v q / 1000 + RQ_SLACK)%Q && rq_bound_ok v qr obr
+      | Some r => Qle_bool (Qabs (r - q)) (resolution v q + RQ_SLACK)%Q && rq_bound_ok v qr obr
       | None => false
       end
   | _, _ => true
